@@ -356,8 +356,8 @@ def rule_T6(tree: Tree) -> RuleResult:
     for role in ("client", "server"):
         ok = ok and txt.get(f"{role}_application_key") == f"HKDFExpand(hash_fun, key_length, key_info).derive({role}_n_1)" \
             and txt.get(f"{role}_application_iv") == f"HKDFExpand(hash_fun, 12, iv_info).derive({role}_n_1)" and txt.get(f"{role}_application_secret") == f"{role}_n_1"
-    kinfo = [try_fold(c.args[0]) for c in body_walk(ku.node) if isinstance(c, ast.Call) and dotted(c.func) == "make_info"]
-    ok = ok and kinfo[:3] == [b"quic key", b"quic iv", b"quic ku"]
+    kinfo = [(try_fold(c.args[0]), src(c.args[1])) for c in body_walk(ku.node) if isinstance(c, ast.Call) and dotted(c.func) == "make_info"]
+    ok = ok and kinfo[:3] == [(b"quic key", "key_length"), (b"quic iv", "12"), (b"quic ku", "hash_fun.digest_size")]
     r.ob(ok, Finding("T6", f"{QK}:key_update:schedule", "key update (RFC 9001 §6.1): secret_{n+1} = Expand-Label(secret_n, 'quic ku', Hash.length); key and IV (not hp) re-derived from secret_{n+1} of the same direction", qk.line(ku.node)))
     return r
 
